@@ -109,7 +109,7 @@ func deepImages(sh *shared) map[string][]byte {
 	m := map[string][]byte{
 		"priv": sh.priv.VerifImage(), "pub": sh.pub.VerifImage(), "peer": sh.peer.VerifImage(),
 		"spriv": sh.spriv.VerifImage(), "spub": sh.spub.VerifImage(),
-		"pt": secp256k1.VerifPointImage(sh.pt), "sc": secp256k1.VerifScalarImage(sh.sc),
+		"pt": secp256k1.VerifPointImage(sh.pt), "pt2": secp256k1.VerifPointImage(sh.pt2), "sc": secp256k1.VerifScalarImage(sh.sc),
 		"sig_r": secp256k1.VerifScalarImage(sh.sig[0]), "sig_s": secp256k1.VerifScalarImage(sh.sig[1]),
 		"dig": append([]byte{}, sh.dig...), "ssig": append([]byte{}, sh.ssig...),
 	}
